@@ -1,0 +1,8 @@
+//go:build !verif
+
+// Package verifhook provides named observation points for the verification harness.
+// Without the "verif" build tag every call is an empty, inlinable function.
+package verifhook
+
+// At marks a named point in the code. It does nothing unless built with the "verif" tag.
+func At(string) {}
